@@ -86,7 +86,7 @@ func normErr(err error) string {
 
 func run(e *harness.Env) {
 	e.Rule = "7 logical documents x layout vectors over 12 dimensions (xref/objstm, filter chain, /Length placement, content split count x whitespace side x cut rotation, " +
-		"page-tree depth x location of inheritable keys, revisions, numbering/file order, EOL, indirect Resources/Font/MediaBox/Contents-array objects, per-page font resource names); quick: all vectors with <=3 non-default choices, thorough: the full product; " +
+		"page-tree depth x location of inheritable keys, revisions, numbering/file order, EOL, indirect Resources/Font/MediaBox/Contents-array objects, per-page font resource names); quick: all vectors with <=3 non-default choices, thorough: the full product; second pass per document with decoy /Resources and /MediaBox on every /Pages node above the holder of the real ones (nearest definition wins): <=2 / <=4 non-default choices; " +
 		"distinct = distinct descriptors, non-trivial = at least one non-default layout choice"
 	e.Assumptions = []string{"internal/gen/pdfw emits well-formed PDF (self-validated offsets/lengths; ISO 32000-1 7.5)", "x/text charmaps for WinAnsi/MacRoman byte encodings"}
 	bound := 3
@@ -96,86 +96,104 @@ func run(e *harness.Env) {
 	dir := harness.Scratch()
 	defer os.RemoveAll(dir)
 	path := filepath.Join(dir, "case.pdf")
+	type pass struct {
+		shadow bool
+		bound  int
+	}
+	shadowBound := 2
+	if e.Thorough() {
+		shadowBound = 4
+	}
 	for _, d := range docs() {
-		d := d
-		e.Explore("doc="+d.Name, bound, func(c *harness.Ctx) {
-			var lay pdfw.Layout
-			switch c.PickS("xref", "table", "stream", "stream+objstm-all", "stream+objstm-alt") {
-			case "stream":
-				lay.XRef = "stream"
-			case "stream+objstm-all":
-				lay.XRef, lay.ObjStm = "stream", "all"
-			case "stream+objstm-alt":
-				lay.XRef, lay.ObjStm = "stream", "alt"
+		for _, ps := range []pass{{false, bound}, {true, shadowBound}} {
+			d, ps := d, ps
+			space := "doc=" + d.Name
+			if ps.shadow {
+				// second pass: every /Pages node above the holder of the inheritable keys carries decoy values
+				space += " shadow=y"
 			}
-			lay.Filter = c.PickS("filter", "none", "Fl", "AHx", "A85Fl", "FlPNG")
-			lay.Length = c.PickS("length", "direct", "before", "after")
-			switch c.PickS("split", "1", "2L", "2R", "3L", "3R") {
-			case "2L":
-				lay.Split, lay.SplitWS = 2, "left"
-			case "2R":
-				lay.Split, lay.SplitWS = 2, "right"
-			case "3L":
-				lay.Split, lay.SplitWS = 3, "left"
-			case "3R":
-				lay.Split, lay.SplitWS = 3, "right"
-			}
-			if lay.Split > 1 {
-				lay.SplitAt = c.PickI("cut", 0, 1, 2)
-			}
-			switch c.PickS("depth", "1", "2", "3", "2u", "3u") {
-			case "1":
-				lay.Depth = 1
-			case "2":
-				lay.Depth = 2
-			case "3":
-				lay.Depth = 3
-			case "2u":
-				lay.Depth, lay.Unbalanced = 2, true
-			case "3u":
-				lay.Depth, lay.Unbalanced = 3, true
-			}
-			hasForms := false
-			for _, p := range d.Pages {
-				if len(p.Forms) > 0 {
-					hasForms = true
+			e.Explore(space, ps.bound, func(c *harness.Ctx) {
+				var lay pdfw.Layout
+				lay.Shadow = ps.shadow
+				switch c.PickS("xref", "table", "stream", "stream+objstm-all", "stream+objstm-alt") {
+				case "stream":
+					lay.XRef = "stream"
+				case "stream+objstm-all":
+					lay.XRef, lay.ObjStm = "stream", "all"
+				case "stream+objstm-alt":
+					lay.XRef, lay.ObjStm = "stream", "alt"
 				}
-			}
-			switch {
-			case hasForms:
-				lay.Inherit = "leaf" // forms need per-page resource dictionaries
-			case lay.Depth > 1:
-				lay.Inherit = c.PickS("inherit", "leaf", "parent", "root")
-			default:
-				lay.Inherit = c.PickS("inherit", "leaf", "parent")
-			}
-			if lay.Inherit == "leaf" || lay.Inherit == "" {
-				lay.PerPageFonts = c.PickS("fontnames", "global", "per-page") == "per-page"
-			}
-			lay.Revisions = c.PickI("rev", 1, 2, 3)
-			lay.Order = c.PickS("order", "asc", "desc")
-			lay.EOL = c.PickS("eol", "LF", "CRLF", "CR")
-			lay.Indirect = c.PickS("indirect", "n", "y") == "y"
-			if !c.Counted() {
-				return
-			}
-			e.Begin(c.Desc())
-			built := pdfw.Write(d, lay)
-			files := map[string][]byte{"pdf": built.Bytes}
-			if err := os.WriteFile(path, built.Bytes, 0o644); err != nil {
-				panic(err)
-			}
-			var sig, det string
-			psig, pdet := harness.Guard(func() { sig, det = checkFile(path, d) })
-			if psig != "" {
-				sig, det = psig, pdet
-			}
-			if sig != "" {
-				c.Fail(sig, det, files)
-				return
-			}
-			c.Pass(fmt.Sprintf("extracted:%s:pages=%d:bytes<%dk", d.Name, len(d.Pages), len(built.Bytes)/4096*4+4))
-		})
+				lay.Filter = c.PickS("filter", "none", "Fl", "AHx", "A85Fl", "FlPNG")
+				lay.Length = c.PickS("length", "direct", "before", "after")
+				switch c.PickS("split", "1", "2L", "2R", "3L", "3R") {
+				case "2L":
+					lay.Split, lay.SplitWS = 2, "left"
+				case "2R":
+					lay.Split, lay.SplitWS = 2, "right"
+				case "3L":
+					lay.Split, lay.SplitWS = 3, "left"
+				case "3R":
+					lay.Split, lay.SplitWS = 3, "right"
+				}
+				if lay.Split > 1 {
+					lay.SplitAt = c.PickI("cut", 0, 1, 2)
+				}
+				switch c.PickS("depth", "1", "2", "3", "2u", "3u") {
+				case "1":
+					lay.Depth = 1
+				case "2":
+					lay.Depth = 2
+				case "3":
+					lay.Depth = 3
+				case "2u":
+					lay.Depth, lay.Unbalanced = 2, true
+				case "3u":
+					lay.Depth, lay.Unbalanced = 3, true
+				}
+				hasForms := false
+				for _, p := range d.Pages {
+					if len(p.Forms) > 0 {
+						hasForms = true
+					}
+				}
+				switch {
+				case hasForms:
+					lay.Inherit = "leaf" // forms need per-page resource dictionaries
+				case lay.Depth > 1 && ps.shadow:
+					lay.Inherit = c.PickS("inherit", "parent", "leaf") // nothing lies above the root
+				case lay.Depth > 1:
+					lay.Inherit = c.PickS("inherit", "leaf", "parent", "root")
+				default:
+					lay.Inherit = c.PickS("inherit", "leaf", "parent")
+				}
+				if lay.Inherit == "leaf" || lay.Inherit == "" {
+					lay.PerPageFonts = c.PickS("fontnames", "global", "per-page") == "per-page"
+				}
+				lay.Revisions = c.PickI("rev", 1, 2, 3)
+				lay.Order = c.PickS("order", "asc", "desc")
+				lay.EOL = c.PickS("eol", "LF", "CRLF", "CR")
+				lay.Indirect = c.PickS("indirect", "n", "y") == "y"
+				if !c.Counted() {
+					return
+				}
+				e.Begin(c.Desc())
+				built := pdfw.Write(d, lay)
+				files := map[string][]byte{"pdf": built.Bytes}
+				if err := os.WriteFile(path, built.Bytes, 0o644); err != nil {
+					panic(err)
+				}
+				var sig, det string
+				psig, pdet := harness.Guard(func() { sig, det = checkFile(path, d) })
+				if psig != "" {
+					sig, det = psig, pdet
+				}
+				if sig != "" {
+					c.Fail(sig, det, files)
+					return
+				}
+				c.Pass(fmt.Sprintf("extracted:%s:pages=%d:bytes<%dk", d.Name, len(d.Pages), len(built.Bytes)/4096*4+4))
+			})
+		}
 	}
 }
 
